@@ -5,3 +5,7 @@ pub use simrt::exec::{spawn, JoinError, JoinHandle};
 pub mod task {
     pub use simrt::exec::{spawn, JoinError, JoinHandle};
 }
+pub mod runtime {
+    //! `Handle::current()` / `Handle::spawn`: a runtime is a generation number of the simulator's executor (F-migrate)
+    pub use simrt::exec::Handle;
+}
